@@ -191,6 +191,10 @@ class FnDep:
         if 'fn' in o:
             return set()
         if 'uneval' in o and 'promoted' not in o:
+            # a module-level constant holding an octet string stands for its octets, like the literal it names (`const PREFIX: &[u8] = b"BLIND_"`)
+            v = self.eng.prog.free_consts().get(o['uneval'])
+            if v is not None and v.startswith('b"'):
+                return {('c', v)}
             return {('a', o['uneval'])}
         if 'promoted' in o:
             out = set()
